@@ -270,10 +270,6 @@ def run_attr(case):
 
 
 # ------------------------------------------------------------------------------------------------ from_tensordict stream
-def _unused():
-    pass
-
-
 def fromtd_cases(R):
     rng = R.rng
     out = []
